@@ -26,6 +26,27 @@ pub enum SOp {
     SinkDword(u32),
     SinkQword(u64),
     SinkVec(Vec<u8>),
+    /// update_checksum(): on a table whose checksum is maintained it changes nothing
+    UpdateChecksum,
+    /// append(GenericAddress::mmio_address::<u16>(v)): a 12-byte packed value through the generic append
+    AppendGa(u64),
+    /// write(offset, GenericAddress::io_port_address::<u32>(v)): a 12-byte packed value through the generic write
+    WriteGa(usize, u16),
+}
+fn ga_mmio(v: u64) -> [u8; 12] {
+    let mut b = [0u8; 12];
+    b[1] = 16;
+    b[3] = 2;
+    b[4..].copy_from_slice(&v.to_le_bytes());
+    b
+}
+fn ga_io(v: u16) -> [u8; 12] {
+    let mut b = [0u8; 12];
+    b[0] = 1;
+    b[1] = 32;
+    b[3] = 3;
+    b[4..6].copy_from_slice(&v.to_le_bytes());
+    b
 }
 
 fn apply(t: &mut Sdt, op: &SOp) {
@@ -45,6 +66,9 @@ fn apply(t: &mut Sdt, op: &SOp) {
         SOp::SinkDword(v) => AmlSink::dword(t, *v),
         SOp::SinkQword(v) => AmlSink::qword(t, *v),
         SOp::SinkVec(v) => AmlSink::vec(t, v),
+        SOp::UpdateChecksum => t.update_checksum(),
+        SOp::AppendGa(v) => t.append(acpi_tables::sdt::GenericAddress::mmio_address::<u16>(*v)),
+        SOp::WriteGa(o, v) => t.write(*o, acpi_tables::sdt::GenericAddress::io_port_address::<u32>(*v)),
     }
 }
 
@@ -111,6 +135,9 @@ impl Model {
             SOp::WriteU32(o, v) => return self.write(*o, &v.to_le_bytes()),
             SOp::WriteU64(o, v) => return self.write(*o, &v.to_le_bytes()),
             SOp::WriteBytes(o, v) => return self.write(*o, v),
+            SOp::UpdateChecksum => self.fix(),
+            SOp::AppendGa(v) => self.append(&ga_mmio(*v)),
+            SOp::WriteGa(o, v) => return self.write(*o, &ga_io(*v)),
         }
         true
     }
@@ -121,7 +148,9 @@ fn kind(op: &SOp) -> &'static str {
         SOp::AppendU8(_) | SOp::AppendU16(_) | SOp::AppendU32(_) | SOp::AppendU64(_) => "append",
         SOp::AppendSlice(_) => "append_slice",
         SOp::WriteBytes(..) => "write_bytes",
-        SOp::WriteU8(..) | SOp::WriteU16(..) | SOp::WriteU32(..) | SOp::WriteU64(..) => "write",
+        SOp::WriteU8(..) | SOp::WriteU16(..) | SOp::WriteU32(..) | SOp::WriteU64(..) | SOp::WriteGa(..) => "write",
+        SOp::AppendGa(_) => "append",
+        SOp::UpdateChecksum => "update_checksum",
         _ => "sink",
     }
 }
@@ -169,6 +198,8 @@ fn alphabet(len: usize, full: bool) -> Vec<SOp> {
         SOp::SinkQword(0xf0e0_d0c0_b0a0_9080),
         SOp::SinkVec(vec![]),
         SOp::SinkVec(vec![1, 2, 3]),
+        SOp::UpdateChecksum,
+        SOp::AppendGa(0x1122_3344_5566_7788),
     ];
     let offs: Vec<usize> = if full {
         let mut o: Vec<usize> = (0..=len + 1).collect();
@@ -197,6 +228,7 @@ fn alphabet(len: usize, full: bool) -> Vec<SOp> {
         v.push(SOp::WriteBytes(o, vec![]));
         v.push(SOp::WriteBytes(o, vec![0xee]));
         v.push(SOp::WriteBytes(o, vec![0x31, 0x32, 0x33]));
+        v.push(SOp::WriteGa(o, 0x0cf8));
         if !full {
             v.push(SOp::WriteBytes(o, (0x41..=0x49).collect()));
             v.push(SOp::WriteU8(o, 0));
